@@ -583,7 +583,10 @@ Section WithXOF.
     if Nat.ltb 255 (length ctx) then None
     else Some (Sign_internal rounds sk (format_message M ctx) rnd).
 
-  (* Algorithm 3 *)
+  (* Algorithm 3.  NOTE: for |ctx| > 255 the standard returns bot (an error,
+     distinct from the Boolean false); this transcription returns Some false
+     there, i.e. it identifies that error with rejection — which is what the
+     verifier of the Go code does (it returns an error in both cases). *)
   Definition Verify (pk M sigma ctx : bytes) : option bool :=
     if Nat.ltb 255 (length ctx) then Some false
     else Verify_internal pk (format_message M ctx) sigma.
